@@ -505,6 +505,8 @@ int main(int argc, char **argv) {
     aws_logger_set(&nl_logger);
     pat_init();
     NS = v_thorough() ? 4 : 3;
+    for (int i = 1; i + 1 < argc; ++i) /* spec.py: the Debug-build pass of the thorough tier uses 3 slots */
+        if (!strcmp(argv[i], "--slots")) NS = atoi(argv[i + 1]) == 4 ? 4 : 3;
     int rc = 0;
     for (int lv = 0; lv < 4; ++lv)
         for (int rmode = 0; rmode < 3; ++rmode)
